@@ -471,6 +471,63 @@ func (sf *StatusFlow) resultVal(v ssa.Value, fn *ssa.Function, seen map[ssa.Valu
 	default:
 		out.unknown(fmt.Sprintf("result value of kind %T: %s", v, v.String()), v.Pos(), fname(fn))
 	}
+	if _, isAlloc := v.(*ssa.Alloc); !isAlloc {
+		// the Status of a result obtained from elsewhere may be overwritten here
+		out.merge(sf.overwrites(v, fn, map[ssa.Value]bool{}))
+	}
+	return out
+}
+
+// overwrites: statuses stored in fn into v.Status, where v is any value of
+// type *LintResult (directly, through a phi it flows into, or by a module
+// callee it is passed to). Flow-insensitive, so the set only grows.
+func (sf *StatusFlow) overwrites(v ssa.Value, fn *ssa.Function, seen map[ssa.Value]bool) *SS {
+	out := &SS{}
+	if seen[v] {
+		return out
+	}
+	seen[v] = true
+	refs := v.Referrers()
+	if refs == nil {
+		return out
+	}
+	for _, ref := range *refs {
+		switch r := ref.(type) {
+		case *ssa.FieldAddr:
+			if r.X != v || r.Field != sf.statusIdx {
+				continue
+			}
+			for _, rr := range *r.Referrers() {
+				switch st := rr.(type) {
+				case *ssa.Store:
+					if st.Addr == r {
+						sf.at = st.Pos()
+						out.merge(sf.statusOf(st.Val, fn, map[ssa.Value]bool{}))
+					}
+				case *ssa.Call:
+					for i, a := range st.Call.Args {
+						if a == r {
+							out.merge(sf.paramStores(st, i))
+						}
+					}
+				}
+			}
+		case *ssa.Phi:
+			out.merge(sf.overwrites(r, fn, seen))
+		case *ssa.Call:
+			for i, a := range r.Call.Args {
+				if a == v {
+					if callee := r.Call.StaticCallee(); callee != nil && isModFunc(callee) {
+						out.merge(sf.paramFieldStores(callee, i))
+					}
+				}
+			}
+		case *ssa.Store:
+			if r.Addr == v {
+				out.unknown("whole-struct store into a LintResult", r.Pos(), fname(fn))
+			}
+		}
+	}
 	return out
 }
 
